@@ -556,7 +556,7 @@ pub mod panics {
 
     thread_local! {
         static LAST: RefCell<Option<(String, String)>> = const { RefCell::new(None) };
-        static QUIET: RefCell<bool> = const { RefCell::new(false) };
+        static DEPTH: RefCell<u32> = const { RefCell::new(0) };
     }
     static INSTALL: Once = Once::new();
 
@@ -564,7 +564,7 @@ pub mod panics {
         INSTALL.call_once(|| {
             let default = std::panic::take_hook();
             std::panic::set_hook(Box::new(move |info| {
-                let quiet = QUIET.with(|q| *q.borrow());
+                let quiet = DEPTH.with(|q| *q.borrow() > 0);
                 if quiet {
                     let msg = if let Some(s) = info.payload().downcast_ref::<&str>() {
                         (*s).to_string()
@@ -585,13 +585,14 @@ pub mod panics {
         });
     }
 
-    /// Runs `f`, returning Err((message, location)) if it panicked.
+    /// Runs `f`, returning Err((message, location)) if it panicked. Re-entrant: an inner `catch` does not switch the
+    /// capture off for the rest of an outer one.
     pub fn catch<T>(f: impl FnOnce() -> T) -> Result<T, (String, String)> {
         install_hook();
-        QUIET.with(|q| *q.borrow_mut() = true);
+        DEPTH.with(|q| *q.borrow_mut() += 1);
         LAST.with(|l| *l.borrow_mut() = None);
         let r = std::panic::catch_unwind(std::panic::AssertUnwindSafe(f));
-        QUIET.with(|q| *q.borrow_mut() = false);
+        DEPTH.with(|q| *q.borrow_mut() -= 1);
         match r {
             Ok(v) => Ok(v),
             Err(_) => Err(LAST
